@@ -50,10 +50,12 @@ COMMANDS = ['%s:%s' % (a, t) for a in ('enable', 'disable') for t in TOOLS]
 
 
 def make_init(repo=None, glob=None, attrs_repo='absent', attrs_global='absent', loc='default', extras=False,
-              drivers_repo=False, drivers_global=False):
+              drivers_repo=False, drivers_global=False, repo_corefile=False):
+    # repo_corefile: the repository the commands are run from sets core.attributesfile in its LOCAL config to a private file
+    # (a valid set-up: that repository then does not consult the user's global attributes file at all)
     d = {'repo': dict.fromkeys(TOOLKEYS), 'global': dict.fromkeys(TOOLKEYS),
          'attrs': {'repo': attrs_repo, 'global': attrs_global}, 'loc': loc, 'extras': bool(extras),
-         'drivers': {'repo': bool(drivers_repo), 'global': bool(drivers_global)}}
+         'drivers': {'repo': bool(drivers_repo), 'global': bool(drivers_global)}, 'repo_corefile': bool(repo_corefile)}
     d['repo'].update(repo or {})
     d['global'].update(glob or {})
     return d
@@ -65,7 +67,7 @@ def random_init(rnd):
                 'mergetool.prompt': rnd.choice(PROMPTS), 'difftool.prompt': rnd.choice(PROMPTS)}
     names = sorted(ATTRS)
     return make_init(scope_cfg(), scope_cfg(), rnd.choice(names), rnd.choice(names), rnd.choice(LOCS),
-                     rnd.random() < 0.6, rnd.random() < 0.2, rnd.random() < 0.2)
+                     rnd.random() < 0.6, rnd.random() < 0.2, rnd.random() < 0.2, rnd.random() < 0.2)
 
 
 def init_label(init):
@@ -74,7 +76,8 @@ def init_label(init):
     return 'repo[%s] global[%s] attrs(repo=%s,global=%s@%s)%s%s' % (
         sc('repo'), sc('global'), init['attrs']['repo'], init['attrs']['global'], init['loc'],
         ' +foreign-extras' if init['extras'] else '',
-        ''.join(' +nbdime-preinstalled-in-%s' % s for s in ('repo', 'global') if init['drivers'][s]))
+        ''.join(' +nbdime-preinstalled-in-%s' % s for s in ('repo', 'global') if init['drivers'][s]) +
+        (' +repository-sets-its-own-core.attributesfile' if init.get('repo_corefile') else ''))
 
 
 # ---------------------------------------------------------------------------------------------------------
@@ -115,7 +118,11 @@ class World:
                 self.global_attr = os.path.join(self.home, '.config', 'git', 'attributes')
             self.repo_cfg = os.path.join(self.repo, '.git', 'config')
             self.repo_attr = os.path.join(self.repo, '.gitattributes')
+            self.private_attr = os.path.join(self.repo, '.private-attributes')
+            self.other = os.path.join(self.tmp, 'work', 'other')          # a second repository of the same user
+            os.makedirs(self.other)
             self._git(['init', '-q', '--template=' + os.path.join(self.tmp, 'empty-template'), self.repo], cwd=self.tmp)
+            self._git(['init', '-q', '--template=' + os.path.join(self.tmp, 'empty-template'), self.other], cwd=self.tmp)
             os.chdir(self.repo)
             self._setup()
         except BaseException:
@@ -151,6 +158,10 @@ class World:
             if init['drivers'][scope]:
                 for k, v in DRIVER_KEYS:
                     self._git(['config', '-f', path, k, v])
+        if init.get('repo_corefile'):
+            with open(self.private_attr, 'wb') as fh:
+                fh.write(b'*.dat binary\n')
+            self._git(['config', '-f', self.repo_cfg, 'core.attributesfile', self.private_attr])
         for scope, path in (('repo', self.repo_attr), ('global', self.global_attr)):
             text = ATTRS[init['attrs'][scope]]
             if text is not None:
@@ -174,9 +185,9 @@ class World:
         files, dirs = {}, set()
         for top in (self.home, os.path.join(self.tmp, 'work')):
             for base, dnames, fnames in os.walk(top):
-                if os.path.basename(base) == '.git' and os.path.dirname(base) == self.repo:
+                if os.path.basename(base) == '.git' and os.path.dirname(base) in (self.repo, self.other):
                     dnames[:] = []
-                    fnames = [f for f in fnames if f == 'config']
+                    fnames = [f for f in fnames if f == 'config' and os.path.dirname(base) == self.repo]
                 rel = os.path.relpath(base, self.tmp)
                 dirs.add(rel)
                 for f in fnames:
@@ -229,9 +240,15 @@ class World:
         attr = {}
         for i in range(0, len(rawattr) - 2, 3):
             attr.setdefault(rawattr[i], {})[rawattr[i + 1]] = rawattr[i + 2]
+        rawother = self._git(['check-attr', '-z', 'diff', 'merge', '--', 'nb.ipynb', 'sub/dir/nb.ipynb'], cwd=self.other).decode('utf8', 'replace').split('\0')
+        attr_other = {}
+        for i in range(0, len(rawother) - 2, 3):
+            attr_other.setdefault(rawother[i], {})[rawother[i + 1]] = rawother[i + 2]
         rel = lambda p: os.path.relpath(p, self.tmp)
-        return {'files': files, 'dirs': dirs, 'cfg': cfg, 'check_attr': attr,
+        return {'files': files, 'dirs': dirs, 'cfg': cfg, 'check_attr': attr, 'check_attr_other': attr_other,
                 'attr_files': {'repo': files.get(rel(self.repo_attr)), 'global': files.get(rel(self.global_attr))},
+                'attr_paths': {'repo': rel(self.repo_attr), 'global': rel(self.global_attr)},
+                'repo_corefile': bool(self.init.get('repo_corefile')),
                 'cfg_paths': (rel(self.repo_cfg), rel(self.global_cfg))}
 
     # -- the code under check
@@ -397,6 +414,14 @@ def judge(before, after, cmd, scope, exc):
             out.append(('attributes-content-lost', '%s: `git check-attr` for the unrelated path %s changed: %r -> %r (attributes: %r)'
                         % (shown, path, before['check_attr'].get(path), after['check_attr'].get(path), after['attr_files'])))
 
+    # --- every other user-owned file (a private attributes file of the repository, a stale default file, ...) is left alone:
+    # a command edits the configuration and the attributes file of its own scope only
+    for p in sorted(set(before['files']) | set(after['files'])):
+        if p in before['cfg_paths'] or p == before['attr_paths'][own_scope]:
+            continue
+        if before['files'].get(p) != after['files'].get(p):
+            out.append(('foreign-file-changed', '%s changed a file outside its scope: %s: %r -> %r' % (shown, p, before['files'].get(p), after['files'].get(p))))
+
     # --- routing / registration
     mine = _multimap(after['cfg'].get(own_scope, []))
     everywhere = {}
@@ -410,10 +435,19 @@ def judge(before, after, cmd, scope, exc):
             problems = []
             if not any(mine.get(cmdkey[drv], [])):
                 problems.append('%s is not set in the %s config' % (cmdkey[drv], own_scope))
-            for path in ('nb.ipynb', 'sub/dir/nb.ipynb'):
-                got = after['check_attr'].get(path, {}).get(drv)
-                if got != 'jupyternotebook':
-                    problems.append('git check-attr %s -- %s says %r' % (drv, path, got))
+            # where routing is observed: the repository the command ran in -- unless it was a global enable and that repository
+            # has its own core.attributesfile (it then never consults the global attributes file); a global enable must also
+            # show in the user's other repository
+            views = []
+            if not (own_scope == 'global' and after.get('repo_corefile')):
+                views.append(('', after['check_attr']))
+            if own_scope == 'global':
+                views.append((' (in the other repository)', after['check_attr_other']))
+            for label, view in views:
+                for path in ('nb.ipynb', 'sub/dir/nb.ipynb'):
+                    got = view.get(path, {}).get(drv)
+                    if got != 'jupyternotebook':
+                        problems.append('git check-attr %s -- %s%s says %r' % (drv, path, label, got))
             if problems:
                 out.append(('not-routed-after-enable', '%s: git does not route notebooks to the nbdime %s driver: %s (attributes: %r)'
                             % (shown, drv, '; '.join(problems), after['attr_files'])))
